@@ -34,6 +34,12 @@ def run(ctx: Ctx):
     non_interference(ctx)
     coordinate_typing(ctx)
     order_inputs_payload(ctx)
+    # computing an ORDER changes no value: the ordering layer (order helpers, collators) works on the cached blocks of the
+    # measures it sorts by and writes to nothing it did not create - a NaN stamped into the sort basis is a NaN in that
+    # measure (and in every measure that shares its blocks) for the rest of the partition's life
+    from .common import no_shared_writes
+
+    no_shared_writes(ctx, "ordering-writes-nothing", shorts=("matrix/assembler.py", "stripe/assembler.py", "collator.py"))
     display_reductions(ctx)
     pairing(ctx)
     index_space_zip(ctx)
